@@ -40,7 +40,7 @@ INTOK = {"lonVertex": 201, "latVertex": 202, "xVertex": 203, "yVertex": 204, "zV
          "coord": 230, "coordx": 231, "coordy": 232, "coordz": 233, "connect1": 234,
          "grid_corner_lon": 240, "grid_corner_lat": 241, "grid_center_lon": 242, "grid_center_lat": 243,
          "grid_area": 244, "grid_imask": 245,
-         "nodeCoords": 250, "centerCoords": 251, "elementConn": 252, "numElementConn": 253,
+         "nodeCoords": 250, "centerCoords": 251, "elementConn": 252, "numElementConn": 253, "elementArea": 254,
          "corner_lons": 260, "corner_lats": 261, "lons": 262, "lats": 263,
          "vlon": 270, "vlat": 271, "elon": 272, "elat": 273, "clon": 274, "clat": 275, "vertex_of_cell": 276,
          "edge_of_cell": 277, "neighbor_cell_index": 278, "adjacent_cell_of_edge": 279, "edge_vertices": 280,
@@ -341,7 +341,7 @@ def ds_scrip(mc, p):
     ds["grid_corner_lat"] = X.DataArray(clat, dims=["grid_size", "grid_corners"])
     ds["grid_center_lon"] = X.DataArray(cl, dims=["grid_size"])
     ds["grid_center_lat"] = X.DataArray(ct, dims=["grid_size"])
-    ds["grid_area"] = X.DataArray(np.full(len(faces), 0.1), dims=["grid_size"])
+    ds["grid_area"] = X.DataArray(np.array([0.05 + 0.013 * ((7 * i) % 11) for i in range(len(faces))]), dims=["grid_size"])
     ds["grid_imask"] = X.DataArray(np.ones(len(faces), dtype=np.int32), dims=["grid_size"])
     ds.attrs = {"title": "scrip"}
     return ds
@@ -361,6 +361,9 @@ def ds_esmf(mc, p):
                                     attrs={"long_name": "conn", "_FillValue": dtype(-1)})
     ds["numElementConn"] = X.DataArray(np.array([len(f) for f in mc["faces"]], dtype=p.get("nconn_dtype", "int8")),
                                        dims=["elementCount"])
+    if p.get("element_area"):
+        ds["elementArea"] = X.DataArray(np.array([0.02 + 0.017 * ((5 * i) % 13) for i in range(len(mc["faces"]))]),
+                                        dims=["elementCount"], attrs={"units": "radians^2"})
     ds.attrs = {"gridType": "unstructured mesh"}
     return ds
 
@@ -643,6 +646,13 @@ def cmp_dataset(ck, c, res, mo, check_values=True, check_vars=False):
     if sorted(m_mod) != res["modified"]:
         ck.corr_failures.append({"case": c, "what": "modified input cells", "impl": res["modified"], "model": sorted(m_mod)})
     ma = sorted((a, b) for a, b in m_alias if 1000 <= b < 2000)
+    for pr in res.get("alias_confirmed", []):
+        if tuple(pr) not in ma:
+            # the source builds this variable as its own copy (copy point): it must not be the caller's array
+            ck.fail("grid_variable_is_callers_array", c, {"constructor": "from_dataset", "format": c.get("format"),
+                                                          "grid_variable": pr[0]},
+                    detail="grid variable %d and input array %d are one buffer: an in-place edit of either shows in the other"
+                           % (pr[0], pr[1]))
     if ma != [tuple(p) for p in res["alias"]]:
         ck.corr_failures.append({"case": c, "what": "alias table", "impl": res["alias"], "model": ma})
     if bool(m_root_is_input) != bool(res["adopted"]):
@@ -720,6 +730,30 @@ def build_format(c):
     raise ValueError(f)
 
 
+def confirm_aliases(g, snap, pairs):
+    """for every measured alias pair: an in-place write into the caller's array shows in the grid variable
+    and an in-place write into the grid variable shows in the caller's array (both undone afterwards)"""
+    tok2name = {v: k for k, v in GV.items()}
+    out = []
+    for gt, it in pairs:
+        gname, iname = tok2name.get(gt), snap.names[it - 1000]
+        a, b = snap.bufs[iname], g._ds[gname].values
+        if a.size == 0 or b.size == 0 or a.dtype.kind not in "fiu" or not a.flags.writeable or not b.flags.writeable:
+            continue
+        save_a, save_b = a.copy(), b.copy()
+        a += 1
+        fwd = arr_sig(b) != arr_sig(save_b)
+        a[...] = save_a
+        b[...] = save_b
+        b += 1
+        bwd = arr_sig(a) != arr_sig(save_a)
+        b[...] = save_b
+        a[...] = save_a
+        if fwd or bwd:
+            out.append([gt, it])
+    return out
+
+
 def run_reader(ck, c):
     UX = ux()
     ds = build_format(c)
@@ -741,6 +775,7 @@ def run_reader(ck, c):
         res["values"] = {}
         res["gvars"] = sorted(GV.get(str(k), 900) for k in g._ds.variables)
         res["attrs_shared"] = g._ds.attrs is ds.attrs
+        res["alias_confirmed"] = confirm_aliases(g, snap, res["alias"])
         try:
             use_grid(g)
         except Exception:
@@ -1470,6 +1505,7 @@ def gen_cases(ck):
                     if fmt == "esmf":
                         c["mesh"] = mesh_case(m, c["lon360"] and rng.random() < 0.5)
                         c["nconn_dtype"] = rng.choice(["int8", "int64"])
+                        c["element_area"] = rng.random() < 0.7
                 cases.append(c)
         for lon360 in (False, True):
             cases.append({"kind": "reader", "format": "geos", "n": rng.choice([1, 2, 3]), "lon360": lon360,
@@ -1745,7 +1781,7 @@ def main(ck):
                      "grid_attributes_shared_by_copies (not containers of the model)": sorted({a for c, res, _ in results
                                                                                                for a in res.get("shared_other_attributes", [])}),
                      "clauses_checked_on_impl": ["input_modified_by_build", "input_modified_by_use", "input_attrs_shared",
-                                                 "copy_differs_from_original", "copy_not_independent", "session_root_changed",
+                                                 "copy_differs_from_original", "copy_not_independent", "session_root_changed", "grid_variable_is_callers_array",
                                                  "export_edit_changes_grid"],
                      "tolerance": "booleans and integer tables exact; longitudes compared after rounding to 1e-6 degree",
                      "model_compared": ["modified input cells", "alias table (np.shares_memory)", "dataset identity (is)",
